@@ -109,6 +109,23 @@ def run(ctx):
                             sv = rets[0][4][0][4][0]
                             pushes = [e[2] for e in ps[0][1] if not e[0].startswith('<') and e[0].split('::')[-1] == 'push_str']
                             good = [x[1] for x in pushes] == [SYM('a'), SYM('b')] and all(x[0] == sv for x in pushes)
+                        if not good and len(ps) == 1 and is_adt(rets[0], 'result::Result', 'Ok') and is_adt(rets[0][4][0], 'value::Value', 'String'):
+                            # other accepted idioms: [a, b].concat() / [a, b].join("") / a + &b
+                            sv = rets[0][4][0][4][0]
+
+                            def bare(x):
+                                while x[0] == 'app' and len(x[2]) == 1 and x[1].split('::')[-1] in ('as_str', 'as_ref', 'deref', 'clone', 'to_string', 'to_owned', 'borrow', 'into', 'from'):
+                                    x = x[2][0]
+                                return x
+                            if sv[0] == 'app':
+                                last = sv[1].split('::<')[0].split('::')[-1] if not sv[1].endswith('>') else sv[1].split('::')[-1]
+                                nm = sv[1].split('::')[-1]
+                                if nm == 'concat' and len(sv[2]) == 1 and sv[2][0][0] == 'tuple':
+                                    good = [bare(x) for x in sv[2][0][1]] == [SYM('a'), SYM('b')]
+                                elif nm == 'join' and len(sv[2]) == 2 and sv[2][0][0] == 'tuple' and sv[2][1] == C(''):
+                                    good = [bare(x) for x in sv[2][0][1]] == [SYM('a'), SYM('b')]
+                                elif nm == 'add' and 'ops::Add' in sv[1] and len(sv[2]) == 2:
+                                    good = [bare(x) for x in sv[2]] == [SYM('a'), SYM('b')]
                         ctx.check(good, 'R3.3', inst, 'concat', '`+` on two strings concatenates a then b (found %s)' % got, span=f.span)
                     else:
                         ctx.check(len(ps) >= 1 and all(is_type_error(r) for r in rets), 'R3.7', inst, 'type-error', 'unsupported operand types yield a type error, never a value (found %s)' % got, span=f.span)
